@@ -3,7 +3,7 @@ use crate::{
     Engine, Event, Result,
     event::{Emitter, TaskExtra},
     scheduler::{
-        Process, Task,
+        NodeKind, Process, Task, TaskState,
         queue::{Queue, Signal},
     },
 };
@@ -54,6 +54,23 @@ impl Scheduler {
                         return true;
                     }
                     let ctx = &task.create_context();
+                    // the task that has scheduled it can be given up as well (aborted with its
+                    // process, skipped, failed...) before the task has started: it is closed
+                    // instead of started beneath a parent that was given up (lifecycle hook acts
+                    // run after their task is closed on purpose)
+                    if task.state().is_none()
+                        && !task.is_event_processed()
+                        && task
+                            .parent()
+                            .is_some_and(|p| p.state().is_completed() && !p.state().is_success())
+                    {
+                        if task.is_kind(NodeKind::Branch) {
+                            task.set_emit_disabled(true);
+                        }
+                        task.set_state(TaskState::Skipped);
+                        let _ = ctx.emit_task(&task);
+                        return true;
+                    }
                     task.exec(ctx).unwrap_or_else(|err| {
                         eprintln!("error: {err}");
                         task.set_err(&err.into());
